@@ -168,6 +168,21 @@ pub fn run(ctx: &mut Ctx) {
             }
         }
     }
+    // second operand built from the boundary probes of the first one's bounds
+    ctx.stratum("N-neighbour-operands", false);
+    let n = ctx.tier.n(30_000, 3_000_000);
+    for i in 0..n {
+        if ctx.take() {
+            let mut r = Rng::for_case(ctx.seed, "C07-N", i);
+            let a = if r.chance(1, 2) { rand_operand(&mut r, &tiv) } else { rand_free_operand(&mut r) };
+            if let Some(a) = a {
+                if let Some(b) = neighbour_operand(&mut r, &a) {
+                    judge_pair(ctx, &a, &b, None);
+                judge_pair(ctx, &b, &a, None);
+                }
+            }
+        }
+    }
     ctx.stratum("P-prerelease-and-big-bounds", false);
     let n = ctx.tier.n(20_000, 2_000_000);
     for i in 0..n {
